@@ -2815,9 +2815,8 @@ func doCompositeBinStruct(n *node, hasType bool) {
 			}
 		} else {
 			fieldIndex[i] = []int{i}
-			if isFuncSrc(c.typ) && len(c.child) > 1 {
-				convertLiteralValue(c.child[1], typ.Field(i).Type)
-				values[i] = genFunctionWrapper(c.child[1])
+			if isFuncSrc(c.typ) {
+				values[i] = genFunctionWrapper(c)
 			} else {
 				convertLiteralValue(c, typ.Field(i).Type)
 				values[i] = genValue(c)
